@@ -43,14 +43,24 @@ def assign(items, subs, nproc):
             cost.append((sub.cost[variant] / nrep + 5, i))
         else:
             cost.append((nex * sub.weight * 0.02 + 10, i))
-    cost.sort(reverse=True)
-    loads = [0.0] * nproc
-    bins = [[] for _ in range(nproc)]
+    # items whose sub-check needs a special process environment get dedicated workers
+    special = {}
+    plain = []
     for c, i in cost:
+        e = subs[items[i][0]].env
+        if e:
+            special.setdefault(json.dumps(e, sort_keys=True), []).append(i)
+        else:
+            plain.append((c, i))
+    nplain = max(1, nproc - len(special))
+    plain.sort(reverse=True)
+    loads = [0.0] * nplain
+    bins = [[] for _ in range(nplain)]
+    for c, i in plain:
         j = loads.index(min(loads))
         loads[j] += c
         bins[j].append(i)
-    return [sorted(b) for b in bins if b]
+    return [sorted(b) for b in bins if b] + [sorted(v) for v in special.values()]
 
 
 def run_workers(prop, tier, seed, bins, subs_env):
@@ -255,11 +265,11 @@ def main():
     for b, v in sorted(by_bucket.items()):
         print(f"  violation [{b}] {v.get('message', '')[:300]}")
         print(f"VIOLATION property={prop} replay={v['replay']}")
+    for h in harness_errors[:5]:
+        print("HARNESS-ERROR", h[-3000:])
     if by_bucket:
         return 1
     if harness_errors:
-        for h in harness_errors[:5]:
-            print("HARNESS-ERROR", h[-3000:])
         return 2
     return 0
 
